@@ -58,6 +58,7 @@ var c05 = &modelCheck{
 		MaxHostLines: 400,
 		MinPlants:    0, MaxPlants: 3,
 		MinMutants: 0, MaxMutants: 2,
+		AddImport: 5,
 	},
 	NonTrivial: func(cs *modelCase, v *verdict) bool { return v.Sites >= 1 },
 }
